@@ -2146,7 +2146,11 @@ void Node::register_peer_contact(PeerContact contact) {
 
 std::vector<ChunkStore::SnapshotEntry> Node::stored_chunks() const {
     SchedulerLock lock(scheduler_mutex_);
-    return chunk_store_.snapshot();
+    auto entries = chunk_store_.snapshot();
+    // A chunk past its deadline is no longer stored, even if the next cleanup has not swept it yet.
+    const auto now = std::chrono::steady_clock::now();
+    std::erase_if(entries, [now](const ChunkStore::SnapshotEntry& entry) { return now >= entry.expires_at; });
+    return entries;
 }
 
 std::size_t Node::connected_peer_count() const {
